@@ -711,7 +711,10 @@ def _run_cfg(case, o: Oracle, wd: str, BootImageV21) -> None:
     open(key_path, "wb").write(K.private_pem(chain_keys[-1]))
     kek = bytes(case["kek"])
     kek_path = os.path.join(wd, "kek.txt")
-    open(kek_path, "w").write(kek.hex())
+    # the key file as tools and editors leave it: bare digits, with a line end, in upper case (`nxpimage sb21 get-sbkek` writes bare digits)
+    kek_text = [kek.hex(), kek.hex() + "\n", kek.hex().upper(), kek.hex().upper() + "\r\n"][kek[1] % 4]
+    open(kek_path, "w", newline="").write(kek_text)
+    o.label("kek_file:" + ["bare", "line_end", "upper", "upper_crlf"][kek[1] % 4])
     options: dict = {"secureBinaryVersion": "2.1"}
     if case["flags"] is not None:
         options["flags"] = case["flags"]
